@@ -375,14 +375,13 @@ class Flow:
         return ("list", tuple(self.ev(e) for e in n.elts))
 
     def e_Tuple(self, n):
-        v = ("tuple", tuple(self.ev(e) for e in n.elts))
+        # a namedtuple row that normalize.namedtuple_rows wrote as the tuple of its values keeps its field names (`_nt_fields`): it is
+        # the record built by calling the type -- `.field`, `[k]` and unpacking then read the field's value (simp), also when the row
+        # reaches the reader as the element of a list of such rows
         fs = getattr(n, "_nt_fields", None)
-        if fs and len(fs) == len(v[1]):
-            # a namedtuple row written out by normalize.namedtuple_rows: remember the names of its positions, so that `row.field`
-            # read through a local (`h = _Hopping(thermal=.., tunnel=..)` .. `h.thermal`) is the element (see e_Attribute)
-            ent = (tuple(fs), getattr(n, "_nt_type", None))
-            _NT_ROWS[v] = ent if _NT_ROWS.get(v, ent) == ent else ((), None)
-        return v
+        if fs and len(fs) == len(n.elts) and not any(isinstance(e, ast.Starred) for e in n.elts):
+            return ("record", getattr(n, "_nt_type", None) or "<namedtuple>", tuple((f, self.ev(e)) for f, e in zip(fs, n.elts)))
+        return ("tuple", tuple(self.ev(e) for e in n.elts))
 
     def e_Set(self, n):
         return ("set", tuple(self.ev(e) for e in n.elts))
@@ -2014,6 +2013,14 @@ def simp(v):
         elif f_[0] in ("attr", "global") and v[1][1] == "map" and f_ != ("const", None):
             bv = ("bv", "_m", next(_fresh))
             body = simp(("meth", f_[1], f_[2], (bv,), ())) if f_[0] == "attr" else simp(("call", f_, (bv,), ()))
+        elif v[1][1] == "map" and ((f_[0] == "call" and f_[1] in (("global", "attrgetter"), ("global", "itemgetter")) and len(f_[2]) == 1 and not f_[3]) or
+                                   (f_[0] == "meth" and f_[1] == ("global", "operator") and f_[2] in ("attrgetter", "itemgetter") and len(f_[3]) == 1 and not f_[4])):
+            # operator.attrgetter("name") / itemgetter(k) applied to x is x.name / x[k]
+            which = f_[1][1] if f_[0] == "call" else f_[2]
+            arg = (f_[2] if f_[0] == "call" else f_[3])[0]
+            if arg[0] == "const" and (which == "itemgetter" or (isinstance(arg[1], str) and arg[1].isidentifier())):
+                bv = ("bv", "_m", next(_fresh))
+                body = ("attr", bv, arg[1]) if which == "attrgetter" else simp(("sub", bv, arg))
         if bv is not None:
             if v[1][1] == "map":
                 return simp(("comp", "gen", body, ((bv, seq_, ()),)))
@@ -2442,6 +2449,11 @@ def truthy(v):
         return True if any(p[0] == "const" and p[1] for p in v[1]) else None
     if v[0] in ("list", "tuple"):
         return bool(v[1])
+    # `c is None` / `c is not None` between constants (a defaulted parameter bound to a constant): identity with None is decided by value
+    if v[0] == "cmp" and len(v) == 3 and len(v[1]) == 1 and v[1][0] in ("Is", "IsNot") and len(v[2]) == 2 and all(x[0] == "const" for x in v[2]) \
+            and any(x[1] is None for x in v[2]):
+        same = v[2][0][1] is None and v[2][1][1] is None
+        return same if v[1][0] == "Is" else not same
     return None
 
 
